@@ -1,22 +1,8 @@
 /-
-  Line-protocol driver: one request per line `op arg…`, one reply per line.
+  Line-protocol driver over ALL domains (convenience for interactive use and replays; the checks use the
+  per-domain executables `oracle_<domain>`, roots `Exe/<Domain>.lean`).
   Imports only core-only modules (Base, Model, Spec, Gen) so it links as a native executable.
 -/
 import Oracle.All
-open Oracle
-
-partial def loop (hin hout : IO.FS.Stream) : IO Unit := do
-  let line ← hin.getLine
-  if line.isEmpty then return ()
-  let ws := (line.trimAscii.toString.splitOn " ").filter (· ≠ "")
-  match ws with
-  | [] => hout.putStrLn "bad-op"
-  | op :: args =>
-    match dispatch op args with
-    | some r => hout.putStrLn r
-    | none => hout.putStrLn "bad-op"
-  hout.flush
-  loop hin hout
-
-def main : IO Unit := do
-  loop (← IO.getStdin) (← IO.getStdout)
+import Oracle.Loop
+def main : IO Unit := Oracle.mainLoop Oracle.dispatch
